@@ -897,6 +897,8 @@ func (x *imgCtx) checkNode(nid string, n *node) {
 				tag := "-"
 				if onlyEmptyMissing {
 					tag = "ext4-xattr-empty-value-dropped"
+				} else if xattrIndexUnknownExplains(n.xattrs, got) {
+					tag = tagXattrIndex
 				}
 				sort.Strings(probs)
 				x.fail(sub, tag, label+": GetXattr: "+strings.Join(probs, "; "))
@@ -979,4 +981,58 @@ func (x *imgCtx) dataVerdict(sub, how, label string, n *node, res result, got []
 	default:
 		c.Stat("data-ok-single-extent")
 	}
+}
+
+const tagXattrIndex = "ext4-xattr-name-index-unknown"
+
+// xattrHighIndex: the name as the reference tools store it under name index 8 or 10, and the name a reader without
+// these two table entries makes of it ("unknown_<index>." + the stored rest)
+func xattrHighIndex(name string) (invented string, ok bool) {
+	switch {
+	case name == "system.richacl":
+		return "unknown_8.", true
+	case strings.HasPrefix(name, "gnu."):
+		return "unknown_10." + strings.TrimPrefix(name, "gnu."), true
+	}
+	return "", false
+}
+
+// xattrIndexUnknownExplains: trigger and symptom of finding ext4-xattr-name-index-unknown - the attributes differ
+// from what was set only in that every attribute stored under index 8 / 10 appears under the invented name, with
+// the right value; everything else is as set.
+func xattrIndexUnknownExplains(want, got map[string][]byte) bool {
+	renamed := 0
+	expect := map[string][]byte{}
+	for k, v := range want {
+		if inv, ok := xattrHighIndex(k); ok {
+			if _, right := got[k]; right {
+				return false
+			}
+			expect[inv] = v
+			renamed++
+		} else {
+			expect[k] = v
+		}
+	}
+	if renamed == 0 || len(expect) != len(got) {
+		return false
+	}
+	for k, v := range expect {
+		if g, ok := got[k]; !ok || !bytes.Equal(g, v) {
+			return false
+		}
+	}
+	return true
+}
+
+func mapsEqual(a, b map[string][]byte) bool {
+	if len(a) != len(b) {
+		return false
+	}
+	for k, v := range a {
+		if w, ok := b[k]; !ok || !bytes.Equal(v, w) {
+			return false
+		}
+	}
+	return true
 }
